@@ -437,7 +437,7 @@ def qcip(q1: np.ndarray, q2: np.ndarray) -> float:
         return np.arccos(abs(q1@q2))
     q1 /= np.linalg.norm(q1, axis=1)[:, None]
     q2 /= np.linalg.norm(q2, axis=1)[:, None]
-    return np.arccos(abs(np.nansum(q1*q2, axis=1)))
+    return np.arccos(np.clip(abs(np.nansum(q1*q2, axis=1)), 0.0, 1.0))   # Rounding can leave the inner product of coincident rows above 1
 
 def qad(q1: np.ndarray, q2: np.ndarray) -> float:
     """
